@@ -176,6 +176,15 @@ CHECKS["C25"] = ("model_checking",
     "owner, at most k, recorded in the directory and actually held, and each acceptance satisfies remaining capacity >= footprint + worst case for k-1 owners.",
     "Trusted: TLC (Replication.tla), vlib/orchrt.py + vlib/agentrt.py, the recorder around _accept_replica. Interleavings are sampled; the UCS search itself (budgets, "
     "paths) is not modelled step by step (DESIGN.md section 5).", "DESIGN.md section 4 C25")
+
+CHECKS["C27"] = ("model_checking",
+    "whole resilient runs on real objects (deploy, replicate, run, scenario removal event, MGM2 repair DCOP) in the deterministic orchestrated runtime with seeded interleavings; the state after the repair judged by TLC against Repair.tla (Judge_C27)",
+    "TLC draws the DCOP (Gen_Dcop) and the deployment (Gen_C25, ample capacities, k in {1,2}); the DSA computations are deployed on real ResilientAgents through the real "
+    "orchestrator, replicated, started, then every set of at most k agents (quick: 3 drawn sets) is removed by a scenario event, before the algorithm starts or after 40 / 200 "
+    "agent steps; the repair (candidate info, repair DCOP with MGM2, activation of replicas, repair_ready / repair_done barriers) runs under a seeded interleaving of agent "
+    "loop iterations; TLC checks: the repair completes, every original computation is actually hosted by exactly one surviving agent and the directory names that agent, "
+    "a re-hosted computation went to a holder of its replica, untouched computations stayed, status OK only then, and no handler raised.",
+    "Trusted: TLC (Repair.tla), vlib/orchrt.py + vlib/agentrt.py. Interleavings are sampled; real-thread repairs are not run.", "DESIGN.md section 4 C27")
 NOT_YET = "check not built yet in this snapshot (work in progress, see DESIGN.md section 9)"
 
 fix_commits = subprocess.run(["git", "-C", "/repo", "log", "--format=%h %s", "aeaae91..HEAD"], capture_output=True, text=True).stdout.splitlines()
